@@ -95,6 +95,12 @@ def c_scope(lib, f):
 def c_fname(lib, f, call=None):
     base = {"ctor": "ctor", "dtor": "dtor"}.get(f["kind"], un_camel(f["name"]))
     suf = f.get("suffix")
+    if suf is None and "ovl_pos_base" in f:
+        # documented default: the position in the overload set, counting every default-argument arity
+        k = f["ovl_pos_base"]
+        if f.get("ndefault") and call is not None:
+            k += call["nargs"] - (len(f["params"]) - f["ndefault"])
+        return PREFIX + c_scope(lib, f) + base + "_%d" % k
     if suf is None and f.get("noverload", 1) > 1:
         suf = "_%d" % f["overload_index"]          # documented default: sequence number
     if f.get("ndefault") and call is not None:
